@@ -59,10 +59,10 @@ def md(name, mode, npts, cmax, eps=1, epsrec=1, exact=True, tiers=Q, timeout=900
                        % ('exactly' if exact else 'up to', npts, cmax, eps, epsrec, miss, 'every query point' if mode == 0 else 'every box with min <= max'))
 
 
-def dyn(name, mode, nbulk, nops, kmax=5, vmax=3, base=2, bufl=1, idxl=2, eps=1, epsrec=1, tiers=Q, timeout=900):
+def dyn(name, mode, nbulk, nops, kmax=5, vmax=3, base=2, bufl=1, idxl=2, eps=1, epsrec=1, tiers=Q, timeout=900, mem_gb=14):
     d = dict(DMODE=mode, NBULK=nbulk, MAXBULK=max(nbulk, 1), NOPS=nops, KMAX=kmax, VMAX=vmax, BASE=base, BUFL=bufl, IDXL=idxl, EPS=eps, EPSREC=epsrec,
              MAXOUT=kmax + 1, VERIF_VEC_CAP=max(nbulk + nops + 4, 10), VERIF_VECVEC_CAP=36, VERIF_SET_CAP=kmax + 2)
-    return dict(name=name, unit='dyn.cpp', harness='h_dyn.c', defs=d, narrow=16, timeout=timeout, tiers=tiers,
+    return dict(name=name, unit='dyn.cpp', harness='h_dyn.c', defs=d, narrow=16, timeout=timeout, tiers=tiers, mem_gb=mem_gb,
                 bounds=['find/count/lower_bound', 'begin()..end() traversal', 'LSM invariants', 'size/empty/range', 'traversal from lower_bound'][mode] + ' after a bulk-load of %d sorted pairs then every history of %d insert_or_assign/erase operations over keys 0..%d and values 0..%d; '
                        'base=%d, buffer_level=%d (buffer of %d), index_level=%d (levels >= %d carry a PGM-index with Epsilon=%d); all queries afterwards'
                        % (nbulk, nops, kmax, vmax, base, bufl, sum(base ** i for i in range(bufl + 1)), idxl, max(idxl, bufl + 1), eps))
@@ -75,6 +75,16 @@ def cpgm(name, kt, ctype, n, epslo=1, ephi=3, spread=200, sentinel=False, tiers=
                 cbmc_extra=['--no-array-field-sensitivity'],
                 bounds='pgm_index_%s_{create,search,destroy}: exactly %d sorted keys = symbolic base (anywhere in the %s range) + offsets 0..%d, run-time epsilon '
                        'symbolic in %d..%d, queries base+0..%d%s' % (ctype, n, kt, spread, epslo, ephi, spread, '; reserved value allowed in the data (NULL path)' if sentinel else ''))
+
+
+def dynstep(name, mode, s1, s2, s3, kmax=4, vmax=1, idxl=10, eps=1, epsrec=1, tiers=Q, timeout=1200, mem_gb=14):
+    d = dict(DMODE=mode, S1MAX=s1, S2MAX=s2, S3MAX=s3, LCAP=max(s1, s2, s3, 1), NLEV=3, KMAX=kmax, VMAX=vmax, BASE=2, BUFL=1, IDXL=idxl, EPS=eps, EPSREC=epsrec,
+             MAXOUT=kmax + 1, VERIF_VEC_CAP=12, VERIF_VECVEC_CAP=36, VERIF_SET_CAP=kmax + 2)
+    return dict(name=name, unit='dyn_step.cpp', harness='h_dyn_step.c', defs=d, narrow=16, timeout=timeout, tiers=tiers, mem_gb=mem_gb,
+                bounds='INDUCTIVE STEP: ' + ['find/count/lower_bound', 'begin()..end() traversal', 'LSM invariants', 'size/empty/range'][mode] +
+                       ' after ONE insert_or_assign/erase from ANY state satisfying the LSM invariant with used_levels 1..4, buffer <= %d, next level <= %d, '
+                       'third level <= %d entries (tombstones anywhere), keys 0..%d, values 0..%d; base=2, buffer_level=1 (buffer of 3, then 4, 8), index_level=%d'
+                       % (s1, s2, s3, kmax, vmax, idxl))
 
 
 JOBS = {}
@@ -92,9 +102,12 @@ JOBS['C04'] = [pla('pla_max_k3_e%d_x15' % e, 3, epsfix=e, xmax=15, ymax=6) for e
               [pla('pla_max_k3_e1_x63', 3, epsfix=1, xmax=63, ymax=6, tiers=T, timeout=3000)]
 JOBS['C14'] = [md('md_contains_n1', 0, 1, 3), md('md_contains_n2', 0, 2, 3)]
 JOBS['C13'] = [md('md_range_n1', 1, 1, 3), md('md_range_n2', 1, 2, 3), md('md_range_n3_skip', 1, 3, 3, miss=0), md('md_range_n4_skip', 1, 4, 3, miss=0, tiers=T, timeout=3000)]
-JOBS['C05'] = [dyn('dyn_q_noidx_b0_o2', 0, 0, 2, idxl=10), dyn('dyn_q_noidx_b0_o4', 0, 0, 4, idxl=10), dyn('dyn_q_idx_b0_o4', 0, 0, 4, idxl=2, tiers=T, timeout=3000)]
+JOBS['C05'] = [dyn('dyn_q_noidx_b0_o2', 0, 0, 2, idxl=10), dyn('dyn_q_noidx_b0_o3', 0, 0, 3, idxl=10), dyn('dyn_q_noidx_b0_o4', 0, 0, 4, idxl=10, tiers=T, timeout=3000, mem_gb=40)]
 JOBS['C06'] = [dyn('dyn_it_noidx_b0_o2', 1, 0, 2, idxl=10), dyn('dyn_rng_noidx_b0_o2', 3, 0, 2, idxl=10), dyn('dyn_lbit_noidx_b0_o2', 4, 0, 2, idxl=10), dyn('dyn_it_noidx_b0_o4', 1, 0, 4, idxl=10, tiers=T, timeout=3000)]
-JOBS['C15'] = [dyn('dyn_inv_noidx_b0_o4', 2, 0, 4, idxl=10), dyn('dyn_inv_idx_b0_o4', 2, 0, 4, idxl=2, tiers=T, timeout=3000)]
+JOBS['C15'] = [dyn('dyn_inv_noidx_b0_o2', 2, 0, 2, idxl=10), dyn('dyn_inv_noidx_b0_o3', 2, 0, 3, idxl=10), dyn('dyn_inv_noidx_b0_o4', 2, 0, 4, idxl=10, tiers=T, timeout=3000, mem_gb=40)]
+JOBS['C05'] += [dynstep('dynstep_q_322', 0, 3, 2, 1)]
+JOBS['C06'] += [dynstep('dynstep_it_321', 1, 3, 2, 1), dynstep('dynstep_rng_321', 3, 3, 2, 1)]
+JOBS['C15'] += [dynstep('dynstep_inv_322', 2, 3, 2, 2)]
 JOBS['C11'] = [mapped('mapped_u8_n2', 'uint8_t', 2), mapped('mapped_i8_n3', 'int8_t', 3), mapped('mapped_u8_n3_dense', 'uint8_t', 3, ord_hi=3)]
 
 JOBS['C02'] = JOBS['C01']
